@@ -3,6 +3,7 @@ package main
 // rules_builder.go — BLD: the search builders hand every parameter on, unconditionally.
 
 import (
+	"go/token"
 	"fmt"
 	"go/types"
 	"sort"
@@ -72,7 +73,9 @@ func ruleBuilders(r *Run, rule string, T types.Type) int {
 			f := fieldName(st.Addr.(*ssa.FieldAddr).X.Type(), st.Addr.(*ssa.FieldAddr).Field)
 			key := "builder:" + tn + "." + m + ":stores:" + f
 			esc := reachAvoid(fn, nil, func(in ssa.Instruction) bool { _, ok := in.(*ssa.Return); return ok }, func(in ssa.Instruction) bool { return in == ssa.Instruction(st) })
-			if esc != nil {
+			if esc != nil && skippedOnlyForNil(fn, st) {
+				r.Ok(rule, key, w.InstrPos(st)+" "+name, "the parameter is stored into "+f+" on every path except for a nil argument, which is refused (the previous setting stays)")
+			} else if esc != nil {
 				r.Bad(rule, key, w.InstrPos(st)+" "+name, fmt.Sprintf("the parameter reaches field %s only on some paths: for other argument values the option is silently ignored and the previous setting stays", f))
 			} else {
 				r.Ok(rule, key, w.InstrPos(st)+" "+name, "the parameter is stored into "+f+" on every path")
@@ -104,4 +107,60 @@ func builderTypes(w *World, ifaces ...string) []types.Type {
 		}
 	}
 	return out
+}
+
+
+// skippedOnlyForNil: every path from the entry to a return that does not execute st decided "the stored parameter is nil".
+func skippedOnlyForNil(fn *ssa.Function, st *ssa.Store) bool {
+	p, ok := st.Val.(*ssa.Parameter)
+	if !ok {
+		return false
+	}
+	paths, trunc := enumPaths(fn.Blocks[0], walkCfg{MaxVisits: 1, MaxPaths: 200})
+	if trunc {
+		return false
+	}
+	for _, pth := range paths {
+		if pth.End != EndReturn || pth.Has(st) {
+			continue
+		}
+		nilDecided := false
+		for _, d := range pth.Decisions {
+			cond, neg := stripNot(d.Cond)
+			bo, ok := cond.(*ssa.BinOp)
+			if !ok || (bo.Op != token.EQL && bo.Op != token.NEQ) {
+				continue
+			}
+			isNil := func(y ssa.Value) bool { k, ok := y.(*ssa.Const); return ok && k.Value == nil }
+			// the parameter may have been converted to an interface for the comparison
+			same := func(v ssa.Value) bool {
+				for {
+					switch x := v.(type) {
+					case *ssa.MakeInterface:
+						v = x.X
+						continue
+					case *ssa.ChangeInterface:
+						v = x.X
+						continue
+					}
+					break
+				}
+				return v == ssa.Value(p)
+			}
+			if !((same(bo.X) && isNil(bo.Y)) || (same(bo.Y) && isNil(bo.X))) {
+				continue
+			}
+			eqTrue := d.Taken != neg
+			if bo.Op == token.NEQ {
+				eqTrue = !eqTrue
+			}
+			if eqTrue {
+				nilDecided = true
+			}
+		}
+		if !nilDecided {
+			return false
+		}
+	}
+	return true
 }
